@@ -1,7 +1,7 @@
 (* C12 - rotation, reflection, signed scaling: structural part.  Pinned theorems only. *)
 From Coq Require Import ZArith List Bool Reals Lra.
 From Flocq Require Import Core BinarySingleNaN.
-Require Import GV.FloatBase GV.FloatLemmas GV.AngleM GV.AngleProofs GV.GeonumM GV.GeonumProofs GV.TraitsM.
+Require Import GV.FloatBase GV.FloatLemmas GV.AngleM GV.AngleProofs GV.GeonumM GV.GeonumProofs GV.TraitsM GV.NewProofs GV.CtorProofs GV.PiBounds GV.TrigProofs GV.DotValue GV.DirProofs.
 Open Scope R_scope.
 
 Theorem C12_rotate : forall g r, mag (grotate g r) = mag g /\ ang (grotate g r) = geometric_add (ang g) r.
@@ -47,3 +47,17 @@ Theorem C12_reflect_law : forall g axis, canonp (rem (ang g)) -> Canon (ang axis
     <= 3 * R_ eps10 + 7 * / 4503599627370496.
 Proof. exact reflect_law. Qed.
 Print Assumptions C12_reflect_law.
+
+(* with the REAL pi: rotation adds the directions *)
+Theorem C12_rotate_direction : forall g r, canonp (rem (ang g)) -> canonp (rem r) ->
+  mag (grotate g r) = mag g /\
+  Rabs (dirR (ang (grotate g r)) - (dirR (ang g) + dirR r)) <= R_ eps10 + / 2251799813685248 + 1 / 10000000000000000.
+Proof. exact grotate_dirR. Qed.
+Print Assumptions C12_rotate_direction.
+
+(* with the REAL pi: the reflected direction is 2*axis - point, carried with exactly two whole turns (4 pi) of history *)
+Theorem C12_reflect_direction : forall g axis, canonp (rem (ang g)) -> Canon (ang axis) -> (0 <= blade (ang g))%Z ->
+  Rabs (dirR (ang (reflect g axis)) - (2 * dirR (ang axis) - dir (ang g) + 4 * Rtrigo1.PI))
+    <= 3 * R_ eps10 + 7 * / 4503599627370496 + 3 / 10000000000000000.
+Proof. exact reflect_dirR. Qed.
+Print Assumptions C12_reflect_direction.
